@@ -22,7 +22,7 @@ from harness.common import fhex
 
 GEN_MODULES = ['stat']
 MODEL_TARGETS = ['model/M_Stat.vo']
-PROOF_TARGETS = ['proofs/P_StatTop.vo', 'proofs/P_StatGamma.vo']
+PROOF_TARGETS = ['proofs/P_StatTop.vo', 'proofs/P_StatGamma.vo', 'proofs/P_StatCallee.vo']
 LEVEL = 'proof'
 RULE = ('history probes on real ZeroSigH0/MultiDataset likelihood objects (TS and calculate_ns_grad2 three times, interleaved), p-value helpers on a buffer refilled in place; fit results with ns <0, =0 (+0.0 and -0.0), >0, NaN/inf, any log-likelihood value, ns at every position of '
         '1..4 floating parameters with fixed parameters interleaved, wrong lengths / unknown names as malformed stream; '
@@ -35,7 +35,7 @@ TRUSTED = [
     'axioms printed by Print Assumptions: the standard-library Reals axioms (ClassicalDedekindReals.sig_not_dec, '
     'sig_forall_dec, functional_extensionality_dep) and Classical_Prop.classic; discrete theorems are closed',
     'translator/py2coq.py: per-element reading of the formulas, comparisons, indices and keyword arguments of '
-    'test_statistic.py, Analysis.calculate_test_statistic and utils/analysis.py (58 kernels of G_stat.v, each pinned by a K_ lemma)',
+    'test_statistic.py, Analysis.calculate_test_statistic and utils/analysis.py (118 kernels of G_stat.v incl. 12 statement-skeleton pins, each pinned by a K_ lemma)',
     'extraction (ExtrOcamlBasic only) + hand-written OCaml driver ocaml/c12/driver.ml and float record ocaml/common/numf.ml',
     'hand model M_Stat.v of control flow, lookups, keyword binding and error paths, validated by this correspondence',
     'oracles (Section-style premises of the theorems): np.polyfit returns the coefficient list (highest power first); '
@@ -784,7 +784,7 @@ def gen_hist_ts_case(ctx, rng):
             'f': rng.choice([[0.5, 0.5], [0.25, 0.75], [1.0, 0.0]]), 'll': rng.choice([0.0, 1.25, -3.0])}
 
 
-def run_hist_ts_case(ctx, case):
+def run_hist_ts_case(ctx, case, lines, checks):
     """repeat / interleave probes on REAL likelihood objects: the zero-ns Taylor TS and calculate_ns_grad2 called three
     times for the same fit result, interleaved with the Wilks TS, another ns and the p-value helpers on the same arrays"""
     import skyllh.core.utils.analysis as UA
@@ -800,6 +800,11 @@ def run_hist_ts_case(ctx, case):
         for R, N in ((case['R'], case['N']), (case['R2'], case['N2'])):
             try:
                 pmm, llh = build_real_llhratio(R, N)
+                # before evaluate(): no cached gradients, the real method raises RuntimeError
+                t0 = LLHRatioZeroNsTaylorWilksTestStatistic()
+                pre = call(lambda: t0(pmm=pmm, log_lambda=0.0, fitparam_values=fpv, llhratio=llh, grads=np.array([0.25])))
+                lines.append(f'taylorreal 1 0x0p+0 zs | 1 | {hexs(fpv)} | {fhex(0.25)} | | N {len(R)} {N - len(R)}')
+                checks.append(('LLHRatioZeroNsTaylorWilksTestStatistic.__call__(real ZeroSigH0 before evaluate)', case, pre))
                 (ll, grads) = llh.evaluate(fpv)
             except Exception as ex:       # construction is not C12's subject: fall back to hand-set state
                 ctx.count('hist:real-construction-failed')
@@ -809,6 +814,12 @@ def run_hist_ts_case(ctx, case):
                 llh = make_llh(1, ['real', list(X), len(R), N - len(R)])
                 ll, grads = 0.0, np.array([float(np.sum(X) - (N - len(R)) / N)])
             objs.append((pmm, llh, float(ll), np.array(grads, dtype=np.float64), R, N))
+        # the state the model's callee is built from: cached per-event gradients and the event counts of the real objects
+        blocks = []
+        for o in objs:
+            cache = o[1]._cache_nsgrad_i
+            blocks.append(f'S {int(o[1]._tdm.n_selected_events)} {int(o[1]._tdm.n_pure_bkg_events)} '
+                          + hexs(np.array(cache, dtype=np.float64)))
         t = LLHRatioZeroNsTaylorWilksTestStatistic()
         w = WilksTestStatistic()
         # ---- single dataset
@@ -835,6 +846,14 @@ def run_hist_ts_case(ctx, case):
                 ctx.violation(site_t, 'raises-' + exc_name(ex) + '-on-repeated-call',
                               'repeated evaluation for the same fit result raises', case=case, impl=[ts, bs])
                 return
+            lines.append(f'taylorreal 1 {fhex(ll)} zs | 1 | {hexs(fpv)} | {hexs(grads)} | | {blocks[0]}')
+            checks.append((site_t + '(real ZeroSigH0)', case, ['Ok', ts[0]], 1e-12 * abs(ts[0]) if math.isfinite(ts[0]) else 0.0))
+            if b == 0:
+                ctx.count('hist:flat-likelihood')
+                if any(math.isnan(v) for v in ts):
+                    ctx.violation(site_t, 'nan-TS-for-flat-likelihood',
+                                  f'all S/B = 1 and no pure background event: a = 0, b = 0, TS = {ts}', case=case, impl=ts,
+                                  predicate='the test statistic can be computed for every fit result')
             if len(bits(bs)) != 1:
                 ctx.violation(site_b, 'repeated-call-differs',
                               f'calculate_ns_grad2(ns=0) called three times for the same fit result: {bs}', case=case, impl=bs,
@@ -896,6 +915,35 @@ def run_hist_ts_case(ctx, case):
             if abs(Fraction(ts[0]) - want) > Fraction(1, 10 ** 11) * abs(want) + Fraction(1, 10 ** 300):
                 ctx.violation(site_t, 'wrong-apex-real-llhratio', f'multi-dataset: TS = {ts[0]}, -2a^2/(4b) = {float(want)}',
                               case=case, impl=ts)
+        tolm = 1e-12 * abs(ts[0]) if math.isfinite(ts[0]) else 0.0
+        lines.append(f'taylorreal 1 {fhex(case["ll"])} md | 1 | {hexs(fpv)} | {hexs(gm)} | {hexs(f)} | ' + ' | '.join(blocks))
+        checks.append((site_t + '(real MultiDataset)', case, ['Ok', ts[0]], tolm))
+        # ---- real NsProfileMultiDatasetTCLLHRatio.calculate_ns_grad2 over the real multi-dataset object
+        npobj = object.__new__(L.NsProfileMultiDatasetTCLLHRatio)
+        npobj.llhratio = multi                       # real property setter (type check)
+        tn = []
+        for _ in range(3):
+            tn.append(call(lambda: t(pmm=pmm, log_lambda=case['ll'], fitparam_values=fpv, llhratio=npobj, grads=gm)))
+        if any(x[0] != 'Ok' for x in tn) or len(bits([x[1] for x in tn] + [ts[0]])) != 1:
+            ctx.violation('NsProfileMultiDatasetTCLLHRatio.calculate_ns_grad2', 'differs-from-wrapped-llhratio',
+                          f'TS through the ns-profile function: {tn}, through the wrapped multi-dataset function: {ts[0]}',
+                          case=case, impl=tn, predicate='the ns-profile function has the second derivative of the wrapped function')
+        lines.append(f'taylorreal 1 {fhex(case["ll"])} np | 1 | {hexs(fpv)} | {hexs(gm)} | {hexs(f)} | ' + ' | '.join(blocks))
+        checks.append((site_t + '(real NsProfile)', case, tn[0], tolm))
+        # ns is not the first floating parameter: the real NsProfile method rejects the index (its constructor admits one
+        # floating parameter only); model: Err ValueError
+        pmm2 = build_pmm([('gamma', True), ('ns', True)])
+        fpv2, gr2 = np.array([2.0, 0.0]), np.array([0.5, float(gm[0])])
+        r2 = call(lambda: t(pmm=pmm2, log_lambda=case['ll'], fitparam_values=fpv2, llhratio=npobj, grads=gr2))
+        lines.append(f'taylorreal 1 {fhex(case["ll"])} np | 0 1 | {hexs(fpv2)} | {hexs(gr2)} | {hexs(f)} | ' + ' | '.join(blocks))
+        checks.append((site_t + '(real NsProfile, ns index 1)', case, r2))
+        # the abstract base method has no body
+        try:
+            rb = L.TCLLHRatio.calculate_ns_grad2(object(), ns=0.0, ns_pidx=0, src_params_recarray=None)
+        except Exception as ex:
+            rb = exc_name(ex)
+        if rb is not None:
+            ctx.violation('TCLLHRatio.calculate_ns_grad2', 'abstract-method-returns-a-value', repr(rb), case=case)
 
 
 def gen_hist_pval_case(ctx, rng):
@@ -1008,10 +1056,66 @@ class _GammaRec:
     def sf(self, x, *a, **kw):
         v = self._real.sf(x, *a, **kw)
         self.sf_calls.append((float(x), float(v)))
+        if 'a' in kw and 'scale' in kw:
+            self.pars = (float(kw['a']), float(kw['scale']))
         return v
 
     def __getattr__(self, name):
         return getattr(self._real, name)
+
+
+def check_fit(ctx, case, lines, checks, tail, eta_eff, fit_pars):
+    """the fit itself: the real objective against an independent formula and the model's tg_objective; the fitted
+    parameters against an independent maximum-likelihood fit of the truncated gamma density on the same tail"""
+    import scipy.optimize
+    import scipy.stats as st
+    import skyllh.core.utils.analysis as UA
+    if not tail:
+        return
+    site = 'truncated_gamma_logpdf'
+    x = np.array([z2f(v) for v in tail], dtype=np.float64)
+    eta_f = z2f(eta_eff)
+    n = len(tail)
+
+    def indep(a, sc):
+        return -(float(np.sum(st.gamma.logpdf(x, a, scale=sc))) - n * float(st.gamma.logsf(eta_f, a, scale=sc)))
+    with warnings.catch_warnings():
+        warnings.simplefilter('ignore')
+        for (a, sc) in ((0.75, 1.8), (0.5, 1.0), (2.0, 3.0)):
+            try:
+                v = float(UA.truncated_gamma_logpdf(a, sc, eta=eta_f, ts_above_eta=x, N_above_eta=n))
+            except Exception as ex:
+                ctx.violation(site, 'raises-' + exc_name(ex), 'objective raises', case=case)
+                return
+            w = indep(a, sc)
+            if not (math.isfinite(v) and abs(v - w) <= 1e-9 * (1 + abs(w))):
+                ctx.violation(site, 'objective-not-the-truncated-gamma-likelihood',
+                              f'-logL(a={a}, scale={sc}) = {v}, independent -sum log(pdf/sf(eta)) = {w}', case=case, impl=v,
+                              predicate='the gamma fit maximises the likelihood of the gamma density truncated at eta')
+            c = float(st.gamma.cdf(eta_f, a, scale=sc))
+            sl = float(np.sum(st.gamma.logpdf(x, a, scale=sc)))
+            if c < 1:
+                lines.append(f'tgobj {fhex(c)} {fhex(sl)} {n}')
+                checks.append((site, dict(case, point=(a, sc)), ['Ok', v], 1e-12 * (1 + abs(v))))
+        ctx.count('gamma:objective-points', 3)
+        if fit_pars is None:
+            return
+        (a, sc) = fit_pars
+        if not (0.1 - 1e-12 <= a <= 10 + 1e-12 and 0.1 - 1e-12 <= sc <= 10 + 1e-12):
+            ctx.violation('calculate_pval_from_gammafit_to_trials', 'fit-parameters-outside-the-box', f'a = {a}, scale = {sc}', case=case)
+            return
+        # same float formulation as documented (so that the optimiser, an oracle, walks the same path): the comparison is
+        # about WHAT is maximised from which start values inside which box, not about the quality of L-BFGS-B
+        def indep2(pa, ps):
+            return -(n * np.log(1. / (1. - st.gamma.cdf(eta_f, a=pa, scale=ps))) + np.sum(st.gamma.logpdf(x, a=pa, scale=ps)))
+        ind = scipy.optimize.minimize(lambda p: indep2(p[0], p[1]), [0.75, 1.8], bounds=[[0.1, 10], [0.1, 10]])
+        f_impl, f_ind = float(indep2(a, sc)), float(ind.fun)
+        ctx.count('gamma:independent-fits')
+        if math.isfinite(f_ind) and not (f_impl <= f_ind + 1e-4 * (1 + abs(f_ind))):
+            ctx.violation('calculate_pval_from_gammafit_to_trials', 'fit-not-the-maximum-likelihood-truncated-gamma',
+                          f'fitted (a, scale) = ({a}, {sc}) has -logL = {f_impl}; an independent fit from the same start values '
+                          f'and box reaches {f_ind} at {ind.x.tolist()}', case=case, impl=[a, sc],
+                          predicate='p above the switch uses the maximum-likelihood truncated gamma on the tail')
 
 
 def run_gamma_case(ctx, case, lines, checks):
@@ -1027,6 +1131,7 @@ def run_gamma_case(ctx, case, lines, checks):
     tail = [v for v in trunc if v > eta_eff]
     site = 'calculate_pval_from_trials_mixed'
     results = []
+    fit_pars = None
     for t in case['thr']:
         rec = _GammaRec(UA.gamma)
         fit_in = []
@@ -1061,8 +1166,12 @@ def run_gamma_case(ctx, case, lines, checks):
                               case=sub, impl=impl)
                 continue
             s_eta, s_thr = main_calls[-2][1], main_calls[-1][1]
+            fit_pars = getattr(rec, 'pars', fit_pars)
             if not (0 < s_eta <= 1 and 0 <= s_thr <= 1 and s_thr <= s_eta * (1 + 1e-12)):
-                ctx.count('gamma:oracle-contract-not-met')     # underflow of sf(eta): outside the theorem's premises
+                # the premises of C12_gamma_range / _mono: checked on what the real fit delivered (empty tail included)
+                ctx.violation(site, 'fitted-survival-function-violates-contract',
+                              f'sf(eta) = {s_eta}, sf(threshold) = {s_thr} ({len(tail)} values in the tail)', case=sub, impl=impl,
+                              predicate='0 < sf(eta) <= 1, 0 <= sf(t) <= sf(eta) for t >= eta')
                 continue
             # what was handed to the fit
             if fit_in and (fit_in[0][1] != [z2f(v) for v in tail] or fit_in[0][2] != len(tail) or fit_in[0][0] != z2f(eta_eff)):
@@ -1105,6 +1214,7 @@ def run_gamma_case(ctx, case, lines, checks):
         else:
             ctx.violation(site, 'not-monotone-' + r1 + '-switch', f'p({z2f(t0)}) = {p0} < p({z2f(t1)}) = {p1}',
                           case=pair, impl=[p0, p1], predicate='p non-increasing in the threshold')
+    check_fit(ctx, case, lines, checks, tail, eta_eff, fit_pars)
     # repeat probe on the unpatched function + arguments unchanged
     ts_rep = [t for t in case['thr'] if t >= max(sw, eta_eff)][:1]
     for t in ts_rep:
@@ -1216,6 +1326,8 @@ def corpus_cases():
     # history probes (seeded C12-3: cache squared in place; seeded C12-4: sorted-trials memo keyed by id/size)
     out.append({'kind': 'hist_ts', 'R': [0.2, 0.5, 1.0, 1.7, 3.0, 0.05, 0.9, 12.0, 0.4, 0.0], 'N': 25,
                 'R2': [0.3, 2.5, 0.9], 'N2': 7, 'f': [0.25, 0.75], 'll': 0.0})
+    # flat likelihood (all S/B = 1, no pure background event): a = b = 0 -> NaN (open finding, hit on every run)
+    out.append({'kind': 'hist_ts', 'R': [1.0, 1.0, 1.0], 'N': 3, 'R2': [0.3, 2.5, 0.9], 'N2': 7, 'f': [0.5, 0.5], 'll': 0.0})
     out.append({'kind': 'hist_pval', 'b1': [0, 0, S // 2, S, 0, 3 * S], 'b2': [5 * S, 6 * S, 9 * S, 4 * S, 7 * S, 5 * S],
                 'other': [S, 2 * S, 3 * S, 4 * S, 5 * S, 6 * S], 'thr': [2 * S, 4 * S]})
     return out
@@ -1234,7 +1346,7 @@ def run_one(ctx, case, lines, checks):
     elif k == 'gamma':
         run_gamma_case(ctx, case, lines, checks)
     elif k == 'hist_ts':
-        run_hist_ts_case(ctx, case)
+        run_hist_ts_case(ctx, case, lines, checks)
     elif k == 'hist_pval':
         run_hist_pval_case(ctx, case)
     else:
@@ -1285,7 +1397,28 @@ def coq_crosscheck(ctx, cases):
     ctx.count('coq-vm_compute-crosschecks', len(exprs[:400]))
 
 
+def check_manual(ctx):
+    """S_Stat.v is a hand transcription of doc/user_manual.tex (eq. TS and the ns = 0 expression): pin the source text"""
+    import os
+    import re
+    try:
+        tex = open(os.path.join(common.REPO, 'doc', 'user_manual.tex')).read()
+    except OSError as ex:
+        ctx.broken.append({'kind': 'spec-source', 'error': f'doc/user_manual.tex not readable: {ex}'})
+        return
+    flat = re.sub(r'\s+', '', tex)
+    want = [r'\mathrm{TS}=2\mathrm{sgn}(\hatns)\log\Lambda(\hatns,\hatps),',
+            r'\mathrm{TS}=-2\frac{\left(\frac{\mathrm{d}\log\Lambda(\ns=0,\ps=\hatps)}{\mathrm{d}\ns}\right)^2}'
+            r'{4\frac{\mathrm{d}^2\log\Lambda(\ns=0,\ps=\hatps)}{\mathrm{d}\ns^2}}.']
+    for wtxt in want:
+        if wtxt not in flat:
+            ctx.broken.append({'kind': 'spec-source', 'error': 'doc/user_manual.tex no longer contains the equation transcribed in '
+                               'coq/spec/S_Stat.v: ' + wtxt[:80]})
+    ctx.count('manual-equations-pinned', len(want))
+
+
 def run(ctx):
+    check_manual(ctx)
     rng = ctx.rng
     lines, checks = [], []
     cases = corpus_cases()
